@@ -37,7 +37,26 @@ func TestReplay(t *testing.T) { ev.RunReplay(t) }
 type World struct {
 	Root  *spec.Spec            `json:"root"`
 	Ext   map[string]*spec.Spec `json:"ext,omitempty"`
-	Order []string              `json:"order,omitempty"`
+	Order []string              `json:"order,omitempty"` // older replay files: namespaces applied to the root only
+	Steps []Apply               `json:"steps,omitempty"`
+}
+
+// Apply is one ApplyNamespace call: the objects of the external scope NS are applied, under that name, to the root
+// scope (On == "") or to another external scope.
+type Apply struct {
+	On string `json:"on,omitempty"`
+	NS string `json:"ns"`
+}
+
+func (w World) steps() []Apply {
+	if len(w.Steps) > 0 {
+		return w.Steps
+	}
+	var out []Apply
+	for _, ns := range w.Order {
+		out = append(out, Apply{NS: ns})
+	}
+	return out
 }
 
 type Case struct {
@@ -186,23 +205,51 @@ func (g *wgen) scope(depth int, allowNS bool) *spec.Spec {
 func genWorld(t *rapid.T) World {
 	g := &wgen{t: t, ext: map[string]*spec.Spec{}}
 	nExt := rapid.IntRange(0, 2).Draw(t, "nExt")
+	var names []string
 	for i := 0; i < nExt; i++ {
 		name := []string{"x", "xy"}[i] // one namespace name is a prefix of the other
-		sc := g.scope(2, false) // external scopes: flat-ish, no named references of their own
+		// an external scope may itself refer into the external scopes generated before it (a chain of namespaces)
+		sc := g.scope(2, i > 0 && rapid.Bool().Draw(t, "chained"))
 		g.ext[name] = sc
+		names = append(names, name)
+	}
+	// ... and into later ones or itself: references across scope boundaries that close a cycle
+	for _, name := range names {
+		if rapid.IntRange(0, 2).Draw(t, "lateRef") != 0 {
+			continue
+		}
+		target := rapid.SampledFrom(names).Draw(t, "lateNS")
+		var tids []string
+		for _, o := range g.ext[target].Objects {
+			tids = append(tids, o.ID)
+		}
+		ref := &spec.Spec{Kind: spec.KRef, RefID: rapid.SampledFrom(tids).Draw(t, "lateID"), Namespace: target}
+		o := g.ext[name].Objects[rapid.IntRange(0, len(g.ext[name].Objects)-1).Draw(t, "lateObject")]
+		var pt *spec.Spec
+		switch rapid.IntRange(0, 2).Draw(t, "lateShape") {
+		case 0:
+			pt = ref
+		case 1:
+			pt = &spec.Spec{Kind: spec.KList, Items: ref, Max: spec.P(int64(2))}
+		default:
+			pt = &spec.Spec{Kind: spec.KMap, Keys: &spec.Spec{Kind: spec.KString}, Values: ref, Max: spec.P(int64(2))}
+		}
+		o.Props = append(o.Props, spec.Prop{Name: "late", Type: pt})
 	}
 	ext := g.ext
 	w := World{Ext: ext}
 	w.Root = g.scope(0, true)
-	var names []string
-	for n := range ext {
-		names = append(names, n)
+	// every (scope, namespace) pair is applied once, in a generated order
+	var steps []Apply
+	for _, on := range append([]string{""}, names...) {
+		for _, ns := range names {
+			steps = append(steps, Apply{On: on, NS: ns})
+		}
 	}
-	sort.Strings(names)
-	if len(names) > 1 {
-		names = rapid.Permutation(names).Draw(t, "order")
+	if len(steps) > 1 {
+		steps = rapid.Permutation(steps).Draw(t, "order")
 	}
-	w.Order = names
+	w.Steps = steps
 	return w
 }
 
@@ -264,38 +311,58 @@ func build(w World) (schema.Type, string) {
 		}
 		exts[ns] = e.(*schema.ScopeSchema)
 	}
-	var refs []refInfo
-	collectRefs(root, &refs, map[any]bool{})
-	applied := map[string]bool{"": true}
+	// the references of each scope's own tree (a reference is not followed into the object it denotes)
+	scopes := map[string]schema.Type{"": root}
+	for ns, e := range exts {
+		scopes[ns] = e
+	}
+	var scopeNames []string
+	refs := map[string][]refInfo{}
+	for name, sc := range scopes {
+		scopeNames = append(scopeNames, name)
+		var r []refInfo
+		collectRefs(sc, &r, map[any]bool{})
+		refs[name] = r
+	}
+	sort.Strings(scopeNames)
+	applied := map[string]bool{}
 	check := func(stage string) string {
-		allLinked := true
-		for _, r := range refs {
-			want := applied[r.ns]
-			if !want {
-				allLinked = false
+		for _, name := range scopeNames {
+			who := "the root scope"
+			if name != "" {
+				who = fmt.Sprintf("external scope %q", name)
 			}
-			if r.ref.ObjectReady() != want {
-				return fmt.Sprintf("%s: reference to %q in namespace %q reports ObjectReady=%v, want %v (applied namespaces: %v)", stage, r.ref.ID(), r.ns, r.ref.ObjectReady(), want, keysOf(applied))
+			allLinked := true
+			for _, r := range refs[name] {
+				want := r.ns == "" || applied[name+"\x00"+r.ns]
+				if !want {
+					allLinked = false
+				}
+				if r.ref.ObjectReady() != want {
+					return fmt.Sprintf("%s: in %s the reference to %q in namespace %q reports ObjectReady=%v, want %v (applied so far: %v)", stage, who, r.ref.ID(), r.ns, r.ref.ObjectReady(), want, keysOf(applied))
+				}
 			}
-		}
-		var verr error
-		if p := oracle.Safely(func() { verr = root.ValidateReferences() }); p != nil {
-			return fmt.Sprintf("%s: ValidateReferences panicked: %v", stage, p)
-		}
-		if (verr == nil) != allLinked {
-			return fmt.Sprintf("%s: ValidateReferences() = %v but all references linked = %v", stage, verr, allLinked)
+			var verr error
+			sc := scopes[name]
+			if p := oracle.Safely(func() { verr = sc.ValidateReferences() }); p != nil {
+				return fmt.Sprintf("%s: ValidateReferences of %s panicked: %v", stage, who, p)
+			}
+			if (verr == nil) != allLinked {
+				return fmt.Sprintf("%s: ValidateReferences() of %s = %v but all of its references linked = %v (applied so far: %v)", stage, who, verr, allLinked, keysOf(applied))
+			}
 		}
 		return ""
 	}
 	if msg := check("after construction"); msg != "" {
 		return nil, msg
 	}
-	for _, ns := range w.Order {
-		if p := oracle.Safely(func() { root.ApplyNamespace(exts[ns].Objects(), ns) }); p != nil {
-			return nil, fmt.Sprintf("ApplyNamespace(%q) panicked: %v", ns, p)
+	for _, st := range w.steps() {
+		target := scopes[st.On]
+		if p := oracle.Safely(func() { target.ApplyNamespace(exts[st.NS].Objects(), st.NS) }); p != nil {
+			return nil, fmt.Sprintf("ApplyNamespace(%q) on %q panicked: %v", st.NS, st.On, p)
 		}
-		applied[ns] = true
-		if msg := check(fmt.Sprintf("after ApplyNamespace(%q)", ns)); msg != "" {
+		applied[st.On+"\x00"+st.NS] = true
+		if msg := check(fmt.Sprintf("after ApplyNamespace(%q) on scope %q", st.NS, st.On)); msg != "" {
 			return nil, msg
 		}
 	}
@@ -396,7 +463,7 @@ func run(c Case) string {
 	env := c.World.env()
 	// the inlined schema still refers to objects of its scopes beyond the unrolling depth: same external tables apply
 	inl := inline(c.World.Root, env, 3)
-	inlWorld := World{Root: inl, Ext: c.World.Ext, Order: c.World.Order}
+	inlWorld := World{Root: inl, Ext: c.World.Ext, Order: c.World.Order, Steps: c.World.Steps}
 	inlRoot, imsg := build(inlWorld)
 	if imsg != "" {
 		if !strings.HasPrefix(imsg, "building the root scope failed") && !strings.HasPrefix(imsg, "harness:") {
@@ -551,8 +618,26 @@ func TestWorlds(t *testing.T) {
 			ev.Class("deep_recursive_input", 1)
 		}
 		collides, shadowed := collisions(w)
-		nontrivial := shadowed || len(w.Order) >= 2
-		ev.Case(ev.FP(specJSON(w), fmt.Sprint(c.Inputs)), nontrivial, fmt.Sprintf("namespaces=%d", len(w.Order)), fmt.Sprintf("id_collision=%v", collides), fmt.Sprintf("shadowed_ref=%v", shadowed), fmt.Sprintf("inputs=%d", len(c.Inputs)))
+		nontrivial := shadowed || len(w.Ext) >= 2
+		chained, crossCycle := false, false
+		reach := map[string]map[string]bool{}
+		for name, e := range w.Ext {
+			reach[name] = map[string]bool{}
+			spec.Walk(e, func(n *spec.Spec) {
+				if n.Kind == spec.KRef && n.Namespace != "" {
+					reach[name][n.Namespace] = true
+					chained = true
+				}
+			})
+		}
+		for a := range reach {
+			for b := range reach[a] {
+				if a == b || reach[b][a] {
+					crossCycle = true
+				}
+			}
+		}
+		ev.Case(ev.FP(specJSON(w), fmt.Sprint(c.Inputs)), nontrivial, fmt.Sprintf("namespaces=%d", len(w.Ext)), fmt.Sprintf("id_collision=%v", collides), fmt.Sprintf("shadowed_ref=%v", shadowed), fmt.Sprintf("inputs=%d", len(c.Inputs)), fmt.Sprintf("external_scope_with_named_refs=%v", chained), fmt.Sprintf("cycle_across_namespaces=%v", crossCycle))
 		if nontrivial && ev.WantSample("world") {
 			ev.Sample("world", c)
 		}
